@@ -66,13 +66,14 @@ Qed.
    clauses there and in design/C03.md); the clauses not in that reference grammar are covered by the prescribed-tree
    oracle (and, where modelled, by the model-vs-code correspondence) only. *)
 
-(* one SELECT statement: DISTINCT, select list with aliases and `*`, FROM list with qualified names and aliases, joins of
-   every kind with ON / USING, WHERE, GROUP BY, HAVING, ORDER BY with direction and NULLS FIRST | LAST, LIMIT, OFFSET;
+(* one SELECT statement: DISTINCT [ON (...)], select list with aliases and `*`, FROM list with qualified names and aliases,
+   joins of every kind with ON / USING, WHERE, GROUP BY with plain expressions, ROLLUP (...) and CUBE (...), HAVING, ORDER BY
+   with direction and NULLS FIRST | LAST, LIMIT, OFFSET;
    every parenthesisation choice [sr] of every expression; for the tree as it is ([tree_flags], switch
    [d_no_alias_after_column] on) under the side condition that no alias without AS follows a bare column reference, for
    the repaired configuration without it.
-   Omitted clauses: DISTINCT ON, SELECT ALL, t.*, derived tables, LATERAL, ROLLUP / CUBE / GROUPING SETS, FETCH, FOR,
-   sub-query expressions, window functions (FILTER / OVER / WITHIN GROUP). *)
+   Omitted clauses: SELECT ALL, t.*, derived tables, LATERAL, GROUPING SETS, MySQL WITH ROLLUP, FETCH, FOR, sub-query
+   expressions, window functions (FILTER / OVER / WITHIN GROUP). *)
 Theorem C03_parse_render_select_partial :
   forall md sf fuel (sr : srho) s stop d,
     select_ok s = true -> (d_no_alias_after_column sf = false \/ select_bare_alias_free s = true) ->
